@@ -185,7 +185,24 @@ static void run_actor(int idx)
         the_link->turn_off();
       else if (n == "linkon")
         the_link->turn_on();
-      else if (n == "put")
+      else if (n == "sendt") { // blocking send carrying a tag (op.a[1]) as match data: one simcall (isend + wait)
+        static thread_local long tags[64];
+        long* tg = new long(op.a[1]);
+        (void)tags;
+        sg4::Comm::send(sg4::Actor::self()->get_impl(), mboxes[op.a[0] - 1], static_cast<double>(op.a[2]), -1.0,
+                        mkpay(k + 1, op.a[2]), sizeof(void*), nullptr, nullptr, tg, -1.0);
+      } else if (n == "recvf") { // blocking receive with a match filter: accepts only sends whose tag equals op.a[1]
+        void* buf   = nullptr;
+        size_t bsz  = sizeof(void*);
+        long* want  = new long(op.a[1]);
+        auto filter = [](void* mine, void* theirs, simgrid::kernel::activity::CommImpl*) {
+          return theirs != nullptr && *static_cast<long*>(theirs) == *static_cast<long*>(mine);
+        };
+        sg4::Comm::recv(sg4::Actor::self()->get_impl(), mboxes[op.a[0] - 1], &buf, &bsz, filter, nullptr, want, -1.0, -1.0);
+        const Payload* p = static_cast<const Payload*>(buf);
+        val              = payval(p);
+        flag             = p ? p->size : -1;
+      } else if (n == "put")
         mboxes[op.a[0] - 1]->put(mkpay(k + 1, op.a[2]), op.a[2]);
       else if (n == "puta") {
         handles.push_back(mboxes[op.a[0] - 1]->put_async(mkpay(k + 1, op.a[2]), op.a[2]));
